@@ -59,9 +59,10 @@ theorem proc_var : (v : Var) → (B : Dict) → VarG v → v.name ∉ keys B →
     simp only [Var.name] at hn
     rw [walkVar_nil, walk_leaves cs (fun m hm => (hg.2 m hm).1)]
     simp only [varEntry, expectVar]
-    have hmem : ∀ m ∈ cs.reverse, m.name ∉ keys (sortKeys a) := by
-      intro m hm hk
-      exact (hg.2 m (List.mem_reverse.mp hm)).2 ((keys_sort_perm a).mem_iff.mp hk)
+    have hmem : ∀ m ∈ cs.reverse, ∀ e, dget (sortKeys a) m.name ≠ some (.dict e) := by
+      intro m hm e
+      rw [dget_sortKeys a hg.1]
+      exact (hg.2 m (List.mem_reverse.mp hm)).2 e
     have hs := members_step (sortKeys a) cs.reverse hmem
     have := container_steps B (sortKeys a) (sortKeys a) n _ _ hn (nodup_keys_sort a hg.1)
       (by intro p hp; simp only [List.mem_map] at hp; obtain ⟨m, _, rfl⟩ := hp; simp) hs
